@@ -916,7 +916,7 @@ impl Gen {
         for _ in 0..n {
             v.push(match kind {
                 K_PREFIX => {
-                    let p = if self.rng.chance(1, 12) { Pfx::v4(0, 0) } else { self.pfx(4, 24) };
+                    let p = if self.rng.chance(1, 12) { if self.rng.chance(1, 3) { Pfx::v6(0, 0) } else { Pfx::v4(0, 0) } } else { self.pfx(4, 24) };
                     let max = if p.v6 { 128 } else { 32 };
                     let (lo, hi) = match self.rng.below(4) {
                         0 => (p.len, p.len),
